@@ -74,13 +74,13 @@ def ensure_facts():
             base = os.path.join(CACHE, "facts")
             olds = [os.path.join(base, o) for o in os.listdir(base) if o != th]
             olds = sorted((p for p in olds if os.path.isdir(p) and not os.path.islink(p)), key=os.path.getmtime, reverse=True)
-            # keep the 3 newest stores and anything used in the last 15 minutes (a concurrent check may still be reading it)
+            # keep the 3 newest stores and anything used in the last 5 minutes (a concurrent check may still be reading it)
             for p in olds[3:]:
                 try:
                     age = time.time() - os.path.getmtime(os.path.join(p, "COMPLETE"))
                 except OSError:
                     age = 1e9
-                if age > 900:
+                if age > 300:
                     subprocess.run(["rm", "-rf", p])
             t0 = time.time()
             r = subprocess.run([os.path.join(V, "bin/extract.sh"), d, REPO, os.path.join(CACHE, "target")], capture_output=True, text=True)
